@@ -12,6 +12,8 @@ OPNAMES = ["Accept", "Handshake", "Heartbeat", "CloseConnection", "RemoveControl
            "RegisterUnauthenticatedClaim", "AdapterAccept", "AdapterReadLoopEnds"]
 KNOWN_KEY = "reauth-stale-index"
 REREG_KEY = "register-replace-closes-shared-stream"
+RACE_KEY = "concurrent-logins-both-survive"
+WITNESS_AUTHRAW_TWICE = [[ACCEPT, 1], [ACCEPT, 2], [REGRAW, 1, 0], [REGRAW, 2, 0], [AUTHRAW, 1, 7], [AUTHRAW, 2, 7]]
 # Register of a ConnID that already has an (authenticated) record; the replacement wraps the same stream
 WITNESS_REREG = [[ACCEPT, 1], [HANDSHAKE, 1, 0, 7, 1], [REREG, 1, 9], [CLOSE, 1]]
 WITNESS_REREG_UNAUTH = [[ACCEPT, 1], [HANDSHAKE, 1, 0, 7, 1], [REREG, 1, 0], [CLOSE, 1]]
@@ -363,7 +365,7 @@ def run(ctx, only_cases=None):
         pinfo = vlib.coq_properties("C07")
         vlib.coq_make(["Proofs/SideC07.vo"])
         vlib.proof_coverage(ctx, pinfo, "make -C coq Properties/C07.vo Proofs/SideC07.vo && coqc Properties/C07.v (Print Assumptions audit)",
-                            extra_obligations=6)  # the 6 regenerated side conditions of Proofs/SideC07.v
+                            extra_obligations=7)  # the 7 regenerated side conditions of Proofs/SideC07.v
     except vlib.Broken as b:
         broken = b   # keep going: search the implementation for a concrete failing history first
 
@@ -372,6 +374,7 @@ def run(ctx, only_cases=None):
                                                                          WITNESS_LATE_CLOSE, WITNESS_CLOSE_RELOGIN, WITNESS_KICK_CLOSE,
                                                                          WITNESS_REREG_UNAUTH, WITNESS_REREG_NEW, WITNESS_REREG_NEW_AUTH)]
     probes.insert(1, {"cfg": CFG0, "ops": WITNESS_REREG, "stream": "witness"})
+    probes.insert(2, {"cfg": CFG0, "ops": WITNESS_AUTHRAW_TWICE, "stream": "witness"})
     probes += [{"cfg": CFG_CLOUD_FAIL, "ops": WITNESS_CLOUD_FAIL, "stream": "witness"}, {"cfg": CFG_CLOUD_FAIL, "ops": WITNESS_CLOUD_FAIL_SWEEP, "stream": "witness"},
                {"cfg": CFG0, "ops": WITNESS_PERSISTENT, "stream": "witness"}, {"cfg": CFG_CLOUD_FAIL, "ops": WITNESS_ADAPTER_ERR, "stream": "witness"},
                {"cfg": CFG0, "ops": WITNESS_CLAIM, "stream": "witness"}]
@@ -380,7 +383,7 @@ def run(ctx, only_cases=None):
     probes += [{"cfg": CFG_CAP2, "ops": w, "stream": "witness"} for w in (WITNESS_CAP_REREG_OLDEST, WITNESS_CAP_REREG_NEWEST,
                                                                             WITNESS_CAP_REREG_UNAUTH, WITNESS_CAP_REREG_NEWSTREAM)]
     if only_cases is not None:
-        cases = probes[:2] + only_cases
+        cases = probes[:3] + only_cases
     else:
         cases = probes + load_corpus()
         cases += gen_structured(rng, 12000 if thorough else 3000, 12)
@@ -392,11 +395,14 @@ def run(ctx, only_cases=None):
     # The second probe is the registry-API witness of the second one (Register of an existing ConnID closes the shared stream).
     tree_pinned = any(v["kind"] == "idx-cid-mismatch" for v in outs[0]["viol"])
     tree_head = (not tree_pinned) and outs[1].get("attr_key") == REREG_KEY
-    variant = 0 if tree_pinned else (2 if tree_head else 1)
-    tree_known = {KNOWN_KEY, REREG_KEY} if tree_pinned else ({REREG_KEY} if tree_head else set())
+    # third probe: UpdateAuth for a client that already has a control connection evicts it (repaired) or not (tree as it is)
+    tree_head2 = (not tree_pinned) and (not tree_head) and any(e[0] == 1 for e in outs[2]["steps"][-1]["reg"])
+    variant = 0 if tree_pinned else (2 if tree_head else (3 if tree_head2 else 1))
+    tree_known = {KNOWN_KEY, REREG_KEY, RACE_KEY} if tree_pinned else ({REREG_KEY, RACE_KEY} if tree_head else ({RACE_KEY} if tree_head2 else set()))
     ctx.coverage["tree_variant"] = {0: "pinned (neither C07 fix applied)",
                                     2: "head (5522a98 applied; fixes/C07-register-replace-shared-stream.diff not applied)",
-                                    1: "current (both C07 fixes applied)"}[variant]
+                                    3: "head2 (5522a98, c61cb06 applied; fixes/C07-updateauth-evicts-atomically.diff not applied)",
+                                    1: "current (all C07 fixes applied)"}[variant]
 
     # (iii) the property predicate evaluated on the real code's own answers, after every operation
     nfail = nknown = 0
@@ -499,6 +505,23 @@ def run(ctx, only_cases=None):
                 for fin in lo["finals"]:
                     lock_terms.append((li, [case_value(variant, cfg, pre + [a, b], [fin], 1), case_value(variant, cfg, pre + [b, a], [fin], 1)]))
 
+    # free-running contention loop (supplement): two logins of ONE client on two connections, no gating.  On a tree whose
+    # UpdateAuth does not evict the previous holder in its own critical section both can survive (lock-section race of
+    # GetByClientID / Remove / UpdateAuth in handleHandshake; Properties/C07.v C07_one_live_head_lock_section_race_refuted).
+    race = {"runs": 0, "two_live": 0, "other_bad": 0}
+    if only_cases is None:
+        race = vlib.run_harness(binary, [{"mode": "race", "cfg": CFG0, "reps": 60000 if thorough else 8000}], timeout=900)[0]
+        if race["two_live"] or race["other_bad"]:
+            if RACE_KEY in tree_known and not race["other_bad"]:
+                nknown += race["two_live"]
+                ctx.violation(RACE_KEY, "real SessionManager: %d of %d free-running pairs of concurrent logins of one client left BOTH connections "
+                              "registered, authenticated and open" % (race["two_live"], race["runs"]), {"race": race})
+            else:
+                nfail += race["two_live"] + race["other_bad"]
+                ctx.violation("inv:" + RACE_KEY, "real SessionManager: %d of %d free-running pairs of concurrent logins of one client (Accept 1, Accept 2, "
+                              "Handshake(1 as 7) || Handshake(2 as 7)) left two live authenticated control connections (and %d other bad outcomes)"
+                              % (race["two_live"], race["runs"], race["other_bad"]), {"race_case": {"mode": "race", "cfg": CFG0, "reps": 15000}, "result": race})
+
     # (ii) model vs implementation, state after every operation
     terms, owners = [], []
     for i, (c, o) in enumerate(zip(cases, outs)):
@@ -544,7 +567,7 @@ def run(ctx, only_cases=None):
             pred = [None]
         ctx.violation("model-mismatch", "Corr/C07.check: Model/Registry.v (%s variant) and the real SessionManager/ClientRegistry disagree on the "
                       "state after some operation of [%s] although the Go-side invariant holds there; the theorems of Properties/C07.v no "
-                      "longer speak about this code" % ({0: "Pinned", 1: "Current", 2: "Head"}[variant], describe(src["ops"])),
+                      "longer speak about this code" % ({0: "Pinned", 1: "Current", 2: "Head", 3: "Head2"}[variant], describe(src["ops"])),
                       {"case": {"cfg": src["cfg"], "ops": src["ops"]}, "observed": [flat(s) for s in obs], "model": pred[0]}, found_input=False)
 
     # coverage
@@ -584,6 +607,7 @@ def run(ctx, only_cases=None):
                     for i in (1, len(cases) // 2, len(cases) - 1) if i < len(cases)],
         "interleaved_random_cases_fired": sum(1 for o in outs if any(st.get("fired") for st in o["steps"])),
         "interleaved_exhaustive_runs_fired": ex_fired,
+        "concurrent_login_race_runs": race["runs"], "concurrent_login_race_two_live": race["two_live"],
         "lock_contention_runs": lock_runs, "lock_contention_scenarios": len(lock_cases),
         "exhaustive_words": ex_total, "exhaustive_steps": ex_steps, "exhaustive_words_sent_to_model": len(ex_emitted),
         "model_vs_impl_cases": len(terms), "model_vs_impl_mismatches": len(mism),
